@@ -12,7 +12,7 @@ from .model import Obj
 
 class Unsupported(Exception): pass
 class _AllRaised(Exception): pass      # an assignment whose every branch raised (the raise is queued in Exec.raised)
-_BI_IDS = {id(getattr(builtins, n)): n for n in ('enumerate', 'id', 'dict', 'hash', 'super', 'isinstance', 'issubclass', 'len', 'iter', 'next', 'getattr', 'bool', 'type', 'callable', 'tuple', 'all', 'any', 'list', 'set', 'sorted', 'sum', 'min', 'max', 'frozenset')}
+_BI_IDS = {id(getattr(builtins, n)): n for n in ('zip', 'enumerate', 'id', 'dict', 'hash', 'super', 'isinstance', 'issubclass', 'len', 'iter', 'next', 'getattr', 'bool', 'type', 'callable', 'tuple', 'all', 'any', 'list', 'set', 'sorted', 'sum', 'min', 'max', 'frozenset')}
 
 # ---------------------------------------------------------------- values
 class V: pass
@@ -97,6 +97,9 @@ class VKeyDiff(V):       # kwargs.keys() - <constant set of names>
 class VDictRef(V):       # a dict object created in verified text with constant keys; contents live in the state heap under ('dict', rid)
     rid: int
 @dataclass(frozen=True)
+class VKw(V):            # the **kwargs dict of a function under contract (immutable: only forwarded with ** or tested for emptiness)
+    items: tuple
+@dataclass(frozen=True)
 class VFStr(V):          # f-string: ordered parts
     parts: tuple
 @dataclass(frozen=True)
@@ -142,8 +145,11 @@ class Exec:
             return z3.Function(f'tuple{n}', *([Obj] * n), Obj)(*[self.obj(i) for i in v.items])
         if isinstance(v, VDictRef): return z3.Const(f'dictref_{v.rid}', Obj)
         if isinstance(v, VFStr):
-            n = len(v.parts)
-            return z3.Function(f'fstr{n}', *([Obj] * n), Obj)(*[self.obj(p) for p in v.parts]) if n else self.uni.const('')
+            # one canonical string-concatenation symbol for f-strings and `+` (left-nested), so that equivalent spellings give the same term
+            if not v.parts: return self.uni.const('')
+            t = self.obj(v.parts[0])
+            for p_ in v.parts[1:]: t = z3.Function('concat', Obj, Obj, Obj)(t, self.obj(p_))
+            return t
         if isinstance(v, VSlice): return z3.Function('slice_of', Obj, Obj)(self.obj(v.src))
         if isinstance(v, VPartial): return z3.Const(f'partial_{getattr(v.func, "o", v.func)!r}'[:60], Obj)
         if isinstance(v, VExc): return z3.Const(f'exc_{v.cls.__name__}', Obj)
@@ -156,6 +162,7 @@ class Exec:
             return z3.BoolVal(bool(v.o))
         if isinstance(v, VTup): return z3.BoolVal(len(v.items) > 0)
         if isinstance(v, (VClosure, VBound, VPartial)): return z3.BoolVal(True)
+        if isinstance(v, VKw): return z3.BoolVal(len(v.items) > 0)
         if isinstance(v, VFStr): return z3.BoolVal(True) if any(isinstance(p, VPy) and p.o for p in v.parts) else M.truthy(self.obj(v))
         raise Unsupported(f'truth of {type(v).__name__}')
     def fork(self, st, cond):
@@ -261,7 +268,11 @@ class Exec:
         return isinstance(v, VInt) or (isinstance(v, VPy) and type(v.o) is int)
     def compare(self, s, op, l, r):
         if isinstance(op, (ast.Is, ast.IsNot)):
-            if isinstance(l, VPy) and isinstance(r, VPy): c = z3.BoolVal(l.o is r.o)
+            # True / False / None are singletons: a literal in the text and the real object denote the same thing
+            if isinstance(l, VPy) and isinstance(l.o, bool) and isinstance(r, VBool): l = VBool(z3.BoolVal(l.o))
+            if isinstance(r, VPy) and isinstance(r.o, bool) and isinstance(l, VBool): r = VBool(z3.BoolVal(r.o))
+            if isinstance(l, VBool) and isinstance(r, VBool): c = (l.t == r.t)
+            elif isinstance(l, VPy) and isinstance(r, VPy): c = z3.BoolVal(l.o is r.o)
             elif isinstance(l, (VInt, VBool)) or isinstance(r, (VInt, VBool)):
                 c = self.obj(l) == self.obj(r)
             else: c = self.obj(l) == self.obj(r)
@@ -443,7 +454,9 @@ class Exec:
                 for kw in n.keywords:
                     nxt = []
                     for s3, acc in kws:
-                        for s4, v in self.eval(kw.value, s3): nxt.append((s4, acc + ((kw.arg, v),)))
+                        for s4, v in self.eval(kw.value, s3):
+                            if kw.arg is None and isinstance(v, VKw): nxt.append((s4, acc + tuple(v.items)))      # **kwargs forwarded: expanded
+                            else: nxt.append((s4, acc + ((kw.arg, v),)))
                     kws = nxt
                 for s3, kwargs in kws:
                     outs += self.call(s3, f, args, dict(kwargs) if all(k is not None for k, _ in kwargs) else kwargs, ast.unparse(n)[:100])
@@ -524,9 +537,8 @@ class Exec:
                 if p not in env: env[p] = self.wrap(v)
         missing = [p for p in params + [k.arg for k in a.kwonlyargs] if p not in env]
         if missing: raise Unsupported(f'missing args {missing}')
-        if kwargs:
-            if a.kwarg: raise Unsupported('**kwargs in inlined function')
-            raise Unsupported(f'unexpected kwargs {list(kwargs)}')
+        if a.kwarg: env[a.kwarg.arg] = VKw(tuple(kwargs.items()))
+        elif kwargs: raise Unsupported(f'unexpected kwargs {list(kwargs)}')
         return env
     def run_function(self, node, s, args, kwargs, fobj=None):
         env = self.bind_params(node, s, args, kwargs, fobj)
@@ -665,6 +677,33 @@ class Exec:
     def b_callable(self, s, args, kw, where):
         if isinstance(args[0], VPy): return [(s, VBool(z3.BoolVal(callable(args[0].o))))]
         return [(s, VBool(M.inst(self.obj(args[0]), self.uni.const(cabc.Callable))))]
+    def b_zip(self, s, args, kw, where):
+        if all(isinstance(a, VTup) for a in args):
+            n = min(len(a.items) for a in args) if args else 0
+            return [(s, VTup(tuple(VTup(tuple(a.items[i] for a in args)) for i in range(n))))]
+        raise Unsupported('zip over symbolic iterables: ' + where)
+    def b_allany(self, s, args, kw, where, is_all):
+        """all()/any() over a generator expression whose source has a concrete length: unrolled with short-circuit"""
+        a = args[0] if args else None
+        if isinstance(a, VClosure) and isinstance(a.node, ast.GeneratorExp) and len(a.node.generators) == 1 and not a.node.generators[0].ifs:
+            g = a.node.generators[0]
+            r = self.eval(g.iter, s.with_env(a.env))
+            if len(r) == 1 and (isinstance(r[0][1], VTup) or (isinstance(r[0][1], VPy) and isinstance(r[0][1].o, (tuple, list)))):
+                s1, src = r[0]
+                elems = list(src.items) if isinstance(src, VTup) else [self.wrap(e) for e in src.o]
+                outs = []; cur = [s1]
+                for e in elems:
+                    nxt = []
+                    for sc in cur:
+                        for s2, v in self.eval(a.node.elt, self.assign(sc, g.target, e)):
+                            for s3, b in self.fork(s2, self.truth(v)):
+                                if b == is_all: nxt.append(s3)
+                                else: outs.append((s3.with_env(s.env), VBool(z3.BoolVal(not is_all))))
+                    cur = nxt
+                return outs + [(sc.with_env(s.env), VBool(z3.BoolVal(is_all))) for sc in cur]
+        return self.b_linear(s, args, kw, where)
+    def b_all(self, s, args, kw, where): return self.b_allany(s, args, kw, where, True)
+    def b_any(self, s, args, kw, where): return self.b_allany(s, args, kw, where, False)
     def b_linear(self, s, args, kw, where):
         """all()/any()/tuple()/list()/sorted()/... over a symbolic container: an operation whose cost is the container's length"""
         a = args[0] if args else None
@@ -682,7 +721,7 @@ class Exec:
         raise Unsupported('linear builtin over ' + type(src).__name__ + ': ' + where)
     BUILTINS = {'enumerate': b_enumerate, 'id': b_id, 'super': b_super, 'dict': b_dict, 'hash': b_hash, 'isinstance': b_isinstance, 'issubclass': b_issubclass, 'len': b_len, 'iter': b_iter, 'next': b_next,
                 'getattr': b_getattr, 'bool': b_bool, 'type': b_type, 'callable': b_callable,
-                'all': b_linear, 'any': b_linear, 'tuple': b_linear, 'list': b_linear, 'set': b_linear, 'sorted': b_linear,
+                'all': b_all, 'any': b_any, 'zip': b_zip, 'tuple': b_linear, 'list': b_linear, 'set': b_linear, 'sorted': b_linear,
                 'sum': b_linear, 'min': b_linear, 'max': b_linear, 'frozenset': b_linear}
 
     # ------------------------------------------------------------ statements
@@ -970,6 +1009,10 @@ class Exec:
             if v.hi is not None: raise Unsupported('slice with upper bound in a for loop')
             self.obl(s, 'defined.slice_nonneg', lo >= 0, 'non-negative slice start (negative starts count from the end: not modelled)')
             return SymIter(j, z3.And(lo <= j, j < n), VObj(M.item(bt, j)), True, lo, s.eff('iterate_slice', bt, lo))
+        if isinstance(v, VView) and v.kind in ('items', 'keys', 'values'):
+            bt = self.obj(v.src); k = M.fresh('k')
+            el = {'items': VTup((VObj(k), VObj(M.mget(bt, k)))), 'keys': VObj(k), 'values': VObj(M.mget(bt, k))}[v.kind]
+            return SymIter(k, M.mem(bt, k), el, False, None, s.eff('iterate_' + v.kind, bt))
         if isinstance(v, VKeyDiff):
             bt = self.obj(v.src); k = M.fresh('k')
             return SymIter(k, z3.And(M.mem(bt, k), *[k != self.uni.const(e) for e in v.excluded]), VObj(k), False, None, s.eff('iterate_keys', bt))
